@@ -28,8 +28,43 @@ type modelReq struct {
 	set  func(v uint64)
 }
 
+// loopWindowInputs builds alternative inputs from loop-carried slice values recorded in the model.
+func loopWindowInputs(e *Encoder, ims []*inputModel) [][]*inputModel {
+	var out [][]*inputModel
+	for _, w := range e.loopWindows {
+		if w.bytes == nil || int(w.length) > len(w.bytes) {
+			continue
+		}
+		var alt []*inputModel
+		hit := false
+		for _, im := range ims {
+			if im.name == w.param && im.bytes != nil {
+				c := *im
+				c.bytes = append([]byte{}, w.bytes[:w.length]...)
+				c.length = w.length
+				alt = append(alt, &c)
+				hit = true
+			} else {
+				alt = append(alt, im)
+			}
+		}
+		if hit {
+			out = append(out, alt)
+		}
+	}
+	return out
+}
+
+type loopWindow struct {
+	param  string
+	v      *SVal
+	length uint64
+	bytes  []byte
+}
+
 type inputModel struct {
 	plain  []byte // AES template: bytes after decryption
+	iv     []byte // AES template: IV bytes as seen after the call (unchanged by decryption)
 	name   string
 	typ    types.Type
 	scalar uint64
@@ -87,6 +122,20 @@ func replayObligation(w *World, r *FnResult, or *OblResult, prop string) replayR
 	}
 	path := base + "_test.go.txt"
 	outcome, log := runReplay(w, e, src)
+	if outcome == "holds" {
+		// the failing state may be that of a later loop iteration: when a loop carries a window of an
+		// input slice (x = x[k:]), start the real function on that window instead
+		for _, alt := range loopWindowInputs(e, ims) {
+			src2, ok2, _ := genReplayTest(w, e, o, alt)
+			if !ok2 {
+				continue
+			}
+			if oc, lg := runReplay(w, e, src2); oc == "violated" {
+				ims, src, outcome, log = alt, src2, oc, lg+"\n(input taken from the loop-carried window of the model)"
+				break
+			}
+		}
+	}
 	rec := note("// model inputs: " + describeInputs(ims) + "\n// replay outcome: " + outcome + "\n//\n// go test output:\n" + commentOut(log) + "\n")
 	os.WriteFile(path, []byte(rec+src), 0o644)
 	switch outcome {
@@ -181,15 +230,60 @@ func extractModel(e *Encoder, o *Obligation) ([]*inputModel, bool, string) {
 	}
 	// AES decode template: the decrypted bytes are an uninterpreted function of the
 	// ciphertext; read them from the model so that the replay can encrypt them.
-	var aesPlain []byte
+	var aesPlain, aesIV []byte
+	if isAESDecode(e) && e.cryptOut != nil {
+		aesIV = make([]byte, 16)
+		for k := 0; k < 16; k++ {
+			k := k
+			reqs = append(reqs, modelReq{c.Select(e.cryptOut, c.BVBin("bvadd", c.BVBin("bvsub", e.cryptOff, c.BVLit(16, 64)), c.BVLit(uint64(k), 64))), func(x uint64) { aesIV[k] = byte(x) }})
+		}
+	}
 	if isAESDecode(e) {
 		for _, g := range e.cbc {
 			if g.dec && g.out != nil {
 				aesPlain = make([]byte, replayBytes)
 				for k := 0; k < replayBytes; k++ {
 					k := k
-					reqs = append(reqs, modelReq{c.Select(g.out, c.BVLit(uint64(k), 64)), func(x uint64) { aesPlain[k] = byte(x) }})
+					var t *Term
+					if e.cryptOut != nil {
+						t = c.Select(e.cryptOut, c.BVBin("bvadd", e.cryptOff, c.BVLit(uint64(k), 64)))
+					} else {
+						t = c.Select(g.out, c.BVLit(uint64(k), 64))
+					}
+					reqs = append(reqs, modelReq{t, func(x uint64) { aesPlain[k] = byte(x) }})
 				}
+			}
+		}
+	}
+	// loop-carried windows of input slices
+	e.loopWindows = nil
+	if e.topFrame != nil {
+		for _, li := range e.topFrame.loops {
+			for _, p := range li.phis {
+				hv := li.phiVals[p]
+				if hv == nil || hv.K != KSlice || p.Comment == "" {
+					continue
+				}
+				isParam := false
+				for _, in := range e.inputs {
+					if in.Name == p.Comment && in.V.K == KSlice {
+						isParam = true
+					}
+				}
+				if !isParam {
+					continue
+				}
+				lw := &loopWindow{param: p.Comment, v: hv, bytes: make([]byte, replayBytes)}
+				e.loopWindows = append(e.loopWindows, lw)
+				reqs = append(reqs, modelReq{hv.Len, func(x uint64) { lw.length = x }})
+				st := li.stH
+				m8 := e.get(st, "mem:bv8", Arr(RefS, Arr(BV64, BV8)))
+				arr := c.Select(m8, hv.Base)
+				for k := 0; k < replayBytes; k++ {
+					k := k
+					reqs = append(reqs, modelReq{c.Select(arr, c.BVBin("bvadd", hv.Off, c.BVLit(uint64(k), 64))), func(x uint64) { lw.bytes[k] = byte(x) }})
+				}
+				small = append(small, c.BVCmp("bvule", hv.Len, c.BVLit(replayBytes, 64)))
 			}
 		}
 	}
@@ -226,6 +320,7 @@ func extractModel(e *Encoder, o *Obligation) ([]*inputModel, bool, string) {
 		for _, im := range ims {
 			if im.name == "data" {
 				im.plain = aesPlain
+				im.iv = aesIV
 			}
 		}
 	}
@@ -469,6 +564,9 @@ func genReplayTest(w *World, e *Encoder, o *Obligation, ims []*inputModel) (stri
 			imports["crypto/cipher"] = "cipher"
 			n := len(im.bytes)
 			fmt.Fprintf(&pre, "\t%s := append(make([]byte, 0, %d), %s...)\n", name, n, bytesLit(im.bytes))
+			if im.iv != nil {
+				fmt.Fprintf(&pre, "\tcopy(%s[:16], %s)\n", name, bytesLit(im.iv))
+			}
 			fmt.Fprintf(&pre, "\tplain_ := %s\n", bytesLit(im.plain[:n-16]))
 			fmt.Fprintf(&pre, "\tcipher.NewCBCEncrypter(in_a.cipher, %s[:16]).CryptBlocks(%s[16:], plain_)\n", name, name)
 		case im.fields != nil:
@@ -721,6 +819,29 @@ func genNIReplay(w *World, e *Encoder, o *Obligation, ims []*inputModel, pkg *ty
 		fmt.Fprintf(&body, "\tif err_r0 == nil && err_r1 == nil && err_r2 == nil {\n")
 		fmt.Fprintf(&body, "\t\tif !sameValue(r1%s, r0%s) || !sameValue(r2%s, r0%s) {\n", o.Expr, o.Expr, o.Expr, o.Expr)
 		fmt.Fprintf(&body, "\t\t\tfmt.Printf(\"VERIF-REPLAY: violated: field %s differs after decoding the same bytes: reused=%%v / %%v fresh=%%v\\n\", r1%s, r2%s, r0%s)\n\t\t\treturn\n\t\t}\n\t}\n", o.Expr, o.Expr, o.Expr, o.Expr)
+	}
+	// second strategy: reach the prior state the way a user does, by decoding an earlier input
+	// into the same value (candidate earlier inputs are derived from the later one)
+	var later []byte
+	simple := len(ims) == 3
+	for _, im := range ims[1:] {
+		if im.bytes != nil {
+			later = im.bytes
+		}
+	}
+	if simple && later != nil && len(fn.Params) == 3 && kindOf(fn.Params[1].Type()) == KSlice {
+		imports["github.com/google/gopacket"] = "gopacket"
+		fmt.Fprintf(&body, "\tlater := %s\n", bytesLit(later))
+		body.WriteString("\tvar cands [][]byte\n")
+		body.WriteString("\tfor _, fill := range []byte{0xff, 0x01, 0x02, 0x00, 0x55, 0x80} {\n\t\tfor L := 0; L <= 72; L++ {\n\t\t\tc := make([]byte, L)\n\t\t\tfor i := range c {\n\t\t\t\tc[i] = fill\n\t\t\t}\n\t\t\tcands = append(cands, c)\n\t\t}\n\t}\n")
+		body.WriteString("\tfor i := 0; i < len(later) && i < 48; i++ {\n\t\tfor _, v := range []byte{0x00, 0x01, 0x02, 0x03, 0x06, 0x40, 0x80, 0xc0, 0xff} {\n\t\t\tfor _, extra := range []int{0, 4, 40} {\n\t\t\t\tc := append(append([]byte{}, later...), make([]byte, extra)...)\n\t\t\t\tfor j := len(later); j < len(c); j++ {\n\t\t\t\t\tc[j] = 0x11\n\t\t\t\t}\n\t\t\t\tc[i] = v\n\t\t\t\tcands = append(cands, c)\n\t\t\t}\n\t\t}\n\t}\n")
+		fmt.Fprintf(&body, "\tfor _, earlier := range cands {\n\t\tr := new(%s)\n\t\tif func() (bad bool) {\n\t\t\tdefer func() {\n\t\t\t\tif recover() != nil {\n\t\t\t\t\tbad = true\n\t\t\t\t}\n\t\t\t}()\n\t\t\treturn r.%s(append([]byte{}, earlier...), gopacket.NilDecodeFeedback) != nil\n\t\t}() {\n\t\t\tcontinue\n\t\t}\n", types.TypeString(pt, q), fn.Name())
+		fmt.Fprintf(&body, "\t\tf := new(%s)\n\t\te1 := r.%s(append([]byte{}, later...), gopacket.NilDecodeFeedback)\n\t\te0 := f.%s(append([]byte{}, later...), gopacket.NilDecodeFeedback)\n", types.TypeString(pt, q), fn.Name(), fn.Name())
+		if o.Expr == "<accept>" {
+			body.WriteString("\t\tif (e1 == nil) != (e0 == nil) {\n\t\t\tfmt.Printf(\"VERIF-REPLAY: violated: acceptance depends on an earlier decode of % x\\n\", earlier)\n\t\t\treturn\n\t\t}\n\t}\n")
+		} else {
+			fmt.Fprintf(&body, "\t\tif e1 == nil && e0 == nil && !sameValue(r%s, f%s) {\n\t\t\tfmt.Printf(\"VERIF-REPLAY: violated: field %s after decoding % %x differs between a value that earlier decoded %% x (%%v) and a fresh one (%%v)\\n\", later, earlier, r%s, f%s)\n\t\t\treturn\n\t\t}\n\t}\n", o.Expr, o.Expr, o.Expr, o.Expr, o.Expr)
+		}
 	}
 	body.WriteString("\tfmt.Println(\"VERIF-REPLAY: holds\")\n")
 	var src strings.Builder
